@@ -162,6 +162,10 @@ pub enum Actor {
     OpenHold,
     /// destroy_database
     Destroy,
+    /// open with error_if_exists (fails on an existing database); put; close
+    OpenErrIfExists,
+    /// open with create_if_missing off (fails on an absent database); put; close
+    OpenNoCreate,
 }
 
 #[derive(Clone, Copy, Debug, PartialEq, Eq)]
@@ -185,6 +189,16 @@ impl P17 {
     pub fn describe(&self) -> Value {
         json!({"program": self.name, "initial": format!("{:?}", self.initial), "actors": self.actors.iter().map(|a| format!("{:?}", a)).collect::<Vec<_>>(), "failing_wal_write_index": self.fail_wal_write})
     }
+}
+
+fn opts_for(fs: &Arc<SwitchFs>, a: Actor) -> DbOptions {
+    let mut o = opts(fs);
+    match a {
+        Actor::OpenErrIfExists => o.error_if_exists = true,
+        Actor::OpenNoCreate => o.create_if_missing = false,
+        _ => {}
+    }
+    o
 }
 
 fn opts(fs: &Arc<SwitchFs>) -> DbOptions {
@@ -277,9 +291,9 @@ fn body(p: &P17) -> Option<(String, String)> {
                     push("destroy", i, r.is_ok(), r.err().map(|e| e.to_string()).unwrap_or_default());
                     None
                 }
-                Actor::OpenPutClose | Actor::OpenHold => {
+                Actor::OpenPutClose | Actor::OpenHold | Actor::OpenErrIfExists | Actor::OpenNoCreate => {
                     let i = tick();
-                    match DB::open(opts(&fs)) {
+                    match DB::open(opts_for(&fs, a)) {
                         Ok(db) => {
                             let n = alive.fetch_add(1, Ordering::SeqCst) + 1;
                             max_alive.fetch_max(n, Ordering::SeqCst);
@@ -380,7 +394,8 @@ fn body(p: &P17) -> Option<(String, String)> {
     let destroyed = events.iter().any(|e| e.what == "destroy" && e.ok) || p.actors.contains(&Actor::Destroy);
     if verdict.is_none() && !destroyed && owner.is_none() {
         let keys = acked.lock().unwrap().clone();
-        if !keys.is_empty() {
+        // (also without acknowledged writes: an attempt that failed must not keep the lock)
+        {
             match DB::open(opts(&fs)) {
                 Ok(db) => {
                     // two instances active on one path leave duplicate / overlapping file records
@@ -401,7 +416,7 @@ fn body(p: &P17) -> Option<(String, String)> {
                         }
                     }
                 }
-                Err(e) => verdict = Some(("C17.acknowledged_write_lost".into(), format!("the database cannot be opened after everybody closed: {} ({})", e, hist()))),
+                Err(e) => verdict = Some((if keys.is_empty() { "C17.cannot_reopen".into() } else { "C17.acknowledged_write_lost".into() }, format!("the database cannot be opened after everybody closed: {} ({})", e, hist()))),
             }
         }
     }
@@ -443,6 +458,15 @@ pub fn programs() -> Vec<P17> {
         mk("closed:destroy||hold||hold", Initial::Closed, vec![Destroy, OpenHold, OpenHold]),
         mk("closed:destroy||openclose||hold", Initial::Closed, vec![Destroy, OpenPutClose, OpenHold]),
         mk("absent:destroy||hold", Initial::Absent, vec![Destroy, OpenHold]),
+        // attempts that fail for a reason of their own (error_if_exists on an existing database,
+        // create_if_missing off on an absent one) must neither disturb the owner nor keep the lock
+        mk("open:open-eie||open", Initial::Open, vec![OpenErrIfExists, OpenPutClose]),
+        mk("closed:open-eie||openclose", Initial::Closed, vec![OpenErrIfExists, OpenPutClose]),
+        mk("closed:open-eie||open-eie", Initial::Closed, vec![OpenErrIfExists, OpenErrIfExists]),
+        mk("absent:open-eie||open-eie", Initial::Absent, vec![OpenErrIfExists, OpenErrIfExists]),
+        mk("absent:open-nocreate||openclose", Initial::Absent, vec![OpenNoCreate, OpenPutClose]),
+        mk("absent:open-nocreate||open-nocreate", Initial::Absent, vec![OpenNoCreate, OpenNoCreate]),
+        mk("open:open-nocreate||destroy", Initial::Open, vec![OpenNoCreate, Destroy]),
     ]
 }
 
@@ -585,7 +609,10 @@ pub fn c17(tier: &str) -> ! {
     let t0 = Instant::now();
     parking_lot::verif_rt::set_named_level(0);
     let shm = Arc::new(Shm::new(1 << 10, 16 << 20));
-    let jobs: Vec<(usize, usize)> = (0..progs.len()).flat_map(|p| (0..parts).map(move |i| (p, i))).collect();
+    // partition-major order: when the budget runs out (a loaded machine) every program has had some
+    // of its partitions explored instead of the first programs all and the last ones none
+    let nprogs = progs.len();
+    let jobs: Vec<(usize, usize)> = (0..parts).flat_map(|i| (0..nprogs).map(move |p| (p, i))).collect();
     let (progs2, shm2, jobs2) = (progs.clone(), Arc::clone(&shm), jobs.clone());
     let deadline = Instant::now() + budget;
     let (capped, machinery) = pool(jobs.len(), workers(), &shm, Some(deadline), move |j| {
@@ -651,7 +678,7 @@ pub fn c17(tier: &str) -> ! {
         }
     }
     rep.cov("wall_explore_s", json!(t0.elapsed().as_secs_f64()));
-    rep.cov("oracle", json!("at no moment two successfully opened handles are alive; while the main thread holds the database open every other open and every destroy_database returns Err and the owner's later put/get succeed and its data is there after close + reopen; among racers that all keep their handle exactly one open succeeds; no panic, no hang"));
+    rep.cov("oracle", json!("at no moment two successfully opened handles are alive; while the main thread holds the database open every other open (also one with error_if_exists or without create_if_missing) and every destroy_database returns Err and the owner's later put/get succeed and its data is there after close + reopen; among racers that all keep their handle exactly one open succeeds; after everybody closed (attempts that failed included) the database can be opened again; no panic, no hang"));
     rep.assume("real TmpFileSystem (flock through fs2) in a fresh temp directory per execution; every FileSystem trait call is a switch point (destroy_database has no lock operation of its own); try_lock_exclusive is non-blocking so the controlled scheduler owns the interleaving");
     rep.assume("all schedules within the stated preemption / deviation bound; threads of one process (flock is per open file description, so handles of one process exclude each other like processes do)");
     rep.finish()
